@@ -21,7 +21,7 @@ class Gen:
                         args.append(r.choice(["u8", "u16", "u32", "u64", "usize", "i8", "i16", "i32", "i64", "isize",
                                               "bool", "i8", "u8"]))
                     objs.append((name, kind, args))
-                elif kind in ("mutex", "rwlock"):
+                elif kind in ("mutex", "rwlock", "plmutex", "plrwlock"):
                     objs.append((name, kind, [str(r.below(4))]))
                 elif kind == "barrier":
                     objs.append((name, kind, [str(r.choice([0, 1, 2, 2, 3]))]))
@@ -126,7 +126,106 @@ class Gen:
             return [f"tls_with {r.choice(self.names(objs, 'tls'))}"]
         if k == "lazy" and self.names(objs, "lazy"):
             return [f"lazy_get {r.choice(self.names(objs, 'lazy'))}"]
+        # wrapper crates (C20): parking_lot, rand, lazy_static
+        if k == "plm" and self.names(objs, "plmutex"):
+            return self.plm_block(objs, ntasks)
+        if k == "plrw" and self.names(objs, "plrwlock"):
+            return self.plrw_block(objs, ntasks)
+        if k == "wrand":
+            return [f"wrand {r.choice(WRAND_KINDS)}"]
+        if k == "wlazy" and self.names(objs, "wlazy"):
+            return [f"wlazy {r.choice(self.names(objs, 'wlazy'))}"]
         return ["yield"]
+
+    # ---- parking_lot replacements
+    def fresh(self):
+        """every write stores a value no other write of the program stores"""
+        self.nfresh = getattr(self, "nfresh", 0) + 1
+        return 10 + self.nfresh
+
+    def pl_inner(self, objs):
+        r = self.r
+        out = []
+        for _ in range(r.below(2)):
+            c = r.below(6)
+            if c < 2:
+                out.append("yield")
+            elif c < 3:
+                out.append("wrand u64")
+            elif c < 4 and self.names(objs, "atomic"):
+                out += self.atomic_op(objs)
+            elif c < 5 and self.names(objs, "plmutex") and not getattr(self, "_in_plm", False):
+                self._in_plm = True
+                out += self.plm_block(objs, 0)
+                self._in_plm = False
+            else:
+                out.append("rand")
+        return out
+
+    def plm_block(self, objs, ntasks):
+        r = self.r
+        m = r.choice(self.names(objs, "plmutex"))
+        inner = self.pl_inner(objs)
+        if r.chance(1, 3):
+            inner.append(f"setval {m} {self.fresh()}")
+        c = r.below(12)
+        if c < 4:
+            body = inner + ([] if r.chance(1, 6) else [f"pl_unlock {m}"])
+            return [f"pl_try_lock {m}", f"if wouldblock skip {len(body)}"] + body
+        if c < 5:
+            return [f"pl_lock {m}"] + inner               # guard held until task end
+        if c < 6:
+            return [f"pl_unlock {m}"]                     # no guard
+        return [f"pl_lock {m}"] + inner + [f"pl_unlock {m}"]
+
+    def plrw_block(self, objs, ntasks):
+        r = self.r
+        q = r.choice(self.names(objs, "plrwlock"))
+        inner = self.pl_inner(objs)
+        sv = lambda: f"setval {q} {self.fresh()}"
+        shapes = self.p.get("plshapes") or list(PL_SHAPES)
+        sh = r.choice(shapes)
+        if sh == "read":
+            return [f"pl_read {q}"] + inner + [f"pl_unread {q}"]
+        if sh == "write":
+            return [f"pl_write {q}", sv()] + inner + [f"pl_unwrite {q}"]
+        if sh == "try_read":
+            body = inner + [f"pl_unread {q}"]
+            return [f"pl_try_read {q}", f"if wouldblock skip {len(body)}"] + body
+        if sh == "try_write":
+            body = [sv()] + inner + [f"pl_unwrite {q}"]
+            return [f"pl_try_write {q}", f"if wouldblock skip {len(body)}"] + body
+        if sh == "upread":
+            return [f"pl_upread {q}"] + inner + [f"pl_unupread {q}"]
+        if sh == "try_upread":
+            body = inner + [f"pl_unupread {q}"]
+            return [f"pl_try_upread {q}", f"if wouldblock skip {len(body)}"] + body
+        if sh == "upgrade":
+            return [f"pl_upread {q}"] + inner + [f"pl_upgrade {q}", sv(), f"pl_unwrite {q}"]
+        if sh == "try_upgrade":
+            # on failure the upgradable guard is still there: `pl_unupread` reports `noguard` otherwise
+            return [f"pl_upread {q}"] + inner + [f"pl_try_upgrade {q}", "if wouldblock skip 2", sv(), f"pl_unwrite {q}",
+                                                 f"pl_unupread {q}"]
+        if sh == "downgrade":
+            return [f"pl_write {q}", sv(), f"pl_downgrade {q}"] + inner + [f"pl_unread {q}"]
+        if sh == "down_up":
+            return [f"pl_write {q}", sv(), f"pl_down_up {q}"] + inner + [f"pl_unupread {q}"]
+        if sh == "to_up_read":
+            return [f"pl_upread {q}", f"pl_to_up_read {q}"] + inner + [f"pl_unread {q}"]
+        if sh == "down_up_upgrade":
+            return [f"pl_write {q}", sv(), f"pl_down_up {q}", f"pl_upgrade {q}", sv(), f"pl_unwrite {q}"]
+        if sh == "keep":
+            # guard(s) held until the task ends (dropped in reverse order)
+            return [r.choice([f"pl_read {q}", f"pl_upread {q}", f"pl_write {q}", f"pl_try_upread {q}"])] + inner
+        if sh == "noguard":
+            return [r.choice([f"pl_upgrade {q}", f"pl_downgrade {q}", f"pl_unread {q}", f"pl_to_up_read {q}",
+                              f"pl_unwrite {q}", f"pl_down_up {q}", f"pl_try_upgrade {q}", f"setval {q} 1"])]
+        # two guards of one task on the same lock: read + try_write / upread + try_read / read + try_upread
+        a, b, ua, ub = r.choice([("pl_read", "pl_try_write", "pl_unread", "pl_unwrite"),
+                                 ("pl_upread", "pl_try_read", "pl_unupread", "pl_unread"),
+                                 ("pl_read", "pl_try_upread", "pl_unread", "pl_unupread"),
+                                 ("pl_upread", "pl_try_upread", "pl_unupread", "pl_unupread")])
+        return [f"{a} {q}", f"{b} {q}", "if wouldblock skip 1", f"{ub} {q}", f"{ua} {q}"]
 
     # ---- BatchSemaphore
     def sem_block(self, objs, ntasks):
@@ -321,7 +420,23 @@ class Gen:
         return False
 
 
+PL_SHAPES = ("read", "read", "write", "write", "try_read", "try_write", "upread", "try_upread", "upgrade", "upgrade",
+             "try_upgrade", "downgrade", "down_up", "down_up", "to_up_read", "down_up_upgrade", "keep", "noguard", "two")
+WRAND_KINDS = ("u64", "u32", "bool", "range", "random", "std", "entropy", "seed", "default", "fill", "choose")
+
 PROFILES = {
+    # C20: parking_lot replacements (mixed), upgradable readers racing writers and readers, rand / lazy_static wrappers
+    "pl": {"objs": {"plmutex": (0, 1), "plrwlock": (1, 1), "atomic": (0, 1)},
+           "weights": {"plm": 3, "plrw": 7, "yield": 1, "wrand": 1, "panic": 1},
+           "min_tasks": 1, "extra_tasks": 1, "min_ops": 1, "extra_ops": 2},
+    "pl_upgrade": {"objs": {"plrwlock": (1, 1)},
+                   "plshapes": ("upgrade", "upgrade", "write", "down_up", "down_up", "upread", "read", "try_upgrade",
+                                "down_up_upgrade", "try_write"),
+                   "weights": {"plrw": 9, "yield": 1},
+                   "min_tasks": 1, "extra_tasks": 1, "min_ops": 1, "extra_ops": 1},
+    "wrand": {"objs": {"wlazy": (0, 2), "atomic": (0, 1), "plmutex": (0, 1)},
+              "weights": {"wrand": 7, "wlazy": 2, "rand": 1, "yield": 1, "atomic": 1, "plm": 1},
+              "min_tasks": 1, "extra_tasks": 2, "min_ops": 1, "extra_ops": 4},
     "kernel": {"objs": {"atomic": (1, 2)}, "weights": {"atomic": 5, "yield": 3, "sleep": 1, "rand": 2, "ctx": 1, "park": 1, "unpark": 2},
                "min_tasks": 1, "extra_tasks": 2, "min_ops": 1, "extra_ops": 5},
     "sem": {"objs": {"atomic": (1, 1), "sem": (1, 2)},
